@@ -1012,3 +1012,120 @@ Qed.
 
 Lemma detect_met_holds cx : results_known cx -> forall c g, met (detect cx c g) = holds cx c g false.
 Proof. intros Hk c g. apply eval_met_holds. exact Hk. Qed.
+
+(* ====================================================================================
+   HISTORIES: one rule value, a sequence of evaluations (gene, arrangement).  The outcome at every
+   position is the outcome of that evaluation alone - whatever was evaluated before or after it, in
+   whatever order, with whatever gene names re-used - and therefore the documented meaning.
+   ==================================================================================== *)
+Lemma detect_history_nth c : forall evals i e, nth_error evals i = Some e ->
+  nth_error (detect_history c evals) i = Some (detect (snd e) c (fst e)).
+Proof.
+  intros evals i e H. unfold detect_history.
+  exact (map_nth_error (fun e => detect (snd e) c (fst e)) i evals H).
+Qed.
+
+Lemma detect_history_length c evals : length (detect_history c evals) = length evals.
+Proof. unfold detect_history. apply map_length. Qed.
+
+Lemma detect_history_app c a b : detect_history c (a ++ b) = detect_history c a ++ detect_history c b.
+Proof. unfold detect_history. apply map_app. Qed.
+
+Lemma nth_error_middle {A} (before after : list A) e : nth_error (before ++ e :: after) (length before) = Some e.
+Proof. induction before as [|x before IH]; cbn; [reflexivity|exact IH]. Qed.
+
+Lemma detect_history_context c before after e :
+  nth_error (detect_history c (before ++ e :: after)) (length before) = nth_error (detect_history c [e]) 0.
+Proof.
+  rewrite (detect_history_nth c (before ++ e :: after) (length before) e (nth_error_middle before after e)).
+  reflexivity.
+Qed.
+
+Lemma detect_history_independent c before1 after1 before2 after2 e :
+  nth_error (detect_history c (before1 ++ e :: after1)) (length before1) =
+  nth_error (detect_history c (before2 ++ e :: after2)) (length before2).
+Proof. rewrite !detect_history_context. reflexivity. Qed.
+
+Lemma detect_history_meaning c evals : evals_known evals -> forall i e, nth_error evals i = Some e ->
+  exists r, nth_error (detect_history c evals) i = Some r /\
+            met r = holds (snd e) c (fst e) false /\
+            matches r = reasons (snd e) c (fst e) false /\
+            is_anchor r = anchors (snd e) c (fst e) /\
+            (forall o p, anc_mem (ancs r) o p <-> anc_has (snd e) c (fst e) false o p = true).
+Proof.
+  intros Hk i e Hi.
+  assert (Hke : results_known (snd e)) by (apply Hk; exact (nth_error_In evals i Hi)).
+  exists (detect (snd e) c (fst e)). split; [exact (detect_history_nth c evals i e Hi)|].
+  split; [exact (detect_met_holds (snd e) Hke c (fst e))|].
+  split; [exact (eval_matches_reasons (snd e) Hke c (fst e) false)|].
+  split; [exact (is_anchor_anchors (snd e) Hke c (fst e))|].
+  intros o p. exact (eval_ancs_spec (snd e) Hke c (fst e) false o p).
+Qed.
+
+(* the executable run function: what fn 5 prints for a history is the concatenation of what fn 1
+   prints for each of its evaluations alone *)
+Lemma history_out_flat c evals : history_out c evals = zlen evals :: flat_map (single_out c) evals.
+Proof.
+  unfold history_out, eList, zlen. rewrite detect_history_length. f_equal.
+  unfold detect_history. induction evals as [|e evals IH]; cbn; [reflexivity|].
+  rewrite IH. reflexivity.
+Qed.
+
+Lemma run_fn5_history l evals r c :
+  dList (dPair dZ dCtx) l = Some (evals, r) -> dCond (length r) r = Some (c, []) ->
+  run_C01 5 l = zlen evals :: flat_map (single_out c) evals.
+Proof.
+  intros Hl Hc. unfold run_C01. cbv iota. rewrite Hl, Hc. apply history_out_flat.
+Qed.
+
+Lemma run_fn1_single l cx r c g :
+  dCtx l = Some (cx, r) -> dCond (length r) r = Some (c, [g]) -> run_C01 1 l = single_out c (g, cx).
+Proof. intros Hl Hc. unfold run_C01. cbv iota. rewrite Hl, Hc. reflexivity. Qed.
+
+(* several records, one apply_cluster_rules run each *)
+Lemma apply_history_nth c records i evals : nth_error records i = Some evals ->
+  nth_error (apply_history c records) i = Some (apply_rule c evals).
+Proof. intro H. unfold apply_history. exact (map_nth_error (apply_rule c) i records H). Qed.
+
+Lemma apply_history_meaning c records : (forall evals, In evals records -> evals_known evals) ->
+  forall i evals, nth_error records i = Some evals ->
+  exists a, nth_error (apply_history c records) i = Some a /\
+            forall o p, anc_mem a o p <-> recorded_spec c evals o p = true.
+Proof.
+  intros Hk i evals Hi. exists (apply_rule c evals). split; [exact (apply_history_nth c records i evals Hi)|].
+  exact (apply_rule_mem c evals (Hk evals (nth_error_In records i Hi))).
+Qed.
+
+(* ---------- the cutoff attribute over the life of a rule object ---------- *)
+Lemma scale_unit c : scale (1, 1) c = c.
+Proof. unfold scale. cbn [fst snd]. rewrite Z.mul_1_r. apply Z.div_1_r. Qed.
+
+Lemma cutoff_life_unit_acc : forall ms c acc, (forall m, In m ms -> m = (1, 1)) ->
+  snd (fold_left (fun st m => let c := scale m (fst st) in (c, snd st ++ [c])) ms (c, acc)) = acc ++ repeat c (length ms).
+Proof.
+  induction ms as [|m ms IH]; intros c acc H; cbn [fold_left length repeat].
+  - rewrite app_nil_r. reflexivity.
+  - rewrite (H m (or_introl eq_refl)), scale_unit. cbn [fst snd].
+    rewrite IH by (intros m' Hm'; apply H; right; exact Hm').
+    rewrite <- app_assoc. reflexivity.
+Qed.
+
+(* with unit multipliers everywhere, the attribute is the text's value after any number of Ruleset
+   constructions over the same rule object *)
+Lemma cutoff_life_unit kb ms : (forall m, In m ms -> m = (1, 1)) ->
+  cutoff_life kb (1, 1) ms = repeat (kb * 1000) (S (length ms)).
+Proof.
+  intro H. unfold cutoff_life, parsed_cutoff. rewrite scale_unit.
+  exact (cutoff_life_unit_acc ms (kb * 1000) [kb * 1000] H).
+Qed.
+
+(* Ruleset.from_files(multipliers = 3/2) on `CUTOFF 10`: parsed 15000, then scaled again: 22500 *)
+Lemma from_files_scales_twice : exists kb m, 0 < fst m /\ 0 < snd m /\
+  last (cutoff_life kb m [m]) 0 <> scale m (kb * 1000).
+Proof. exists 10, (3, 2). repeat split; try reflexivity. vm_compute. discriminate. Qed.
+
+(* a Ruleset over rule objects that already sit in another Ruleset (or a copy_with_replacements of
+   it) re-scales them: the first Ruleset's rules change under its feet *)
+Lemma ruleset_copy_rescales : exists kb m, 0 < fst m /\ 0 < snd m /\
+  cutoff_life kb (1, 1) [m; m] <> [kb * 1000; scale m (kb * 1000); scale m (kb * 1000)].
+Proof. exists 10, (3, 2). repeat split; try reflexivity. vm_compute. discriminate. Qed.
